@@ -2,9 +2,11 @@
 Line protocol of the ToUnicode part of C17:
   tounicode ((glyph (u16 …)) …) (glyph …)   → the decoded UTF-16 code units `(u …)` or `none`
   record ((glyph (u16 …)) …)                → the table built by `if glyph not in cmap: cmap[glyph] = text`
+  bfline glyph (code point …)               → the bfchar line `<gggg> <utf-16be hex>` written for that entry
 -/
 import WpModel.Model.Wire
 import WpModel.Model.ToUnicode
+import WpModel.Model.Utf16
 
 namespace Wp.Drive.ToUnicode
 open Wp Wp.ToUnicode
@@ -24,6 +26,9 @@ def handle (cmd : String) (args : List Sx) : Option String :=
   | "record", [.list entries] => do
     let ps ← allSome entry? entries
     pure ("(" ++ " ".intercalate ((recordAll [] ps).map (fun e => "(" ++ toString e.1 ++ " " ++ showUnits e.2 ++ ")")) ++ ")")
+  | "bfline", [glyph, .list cps] => do
+    -- the bfchar line `build_fonts_dictionary` writes for one entry of `font.cmap` (text as code points)
+    pure (Wp.Utf16.bfcharLine (← glyph.nat?) (← allSome Sx.nat? cps))
   | _, _ => none
 
 end Wp.Drive.ToUnicode
